@@ -29,8 +29,33 @@ def parentFrames (fs : List Frame) (bytes : Bytes) : List Frame :=
   | [] => []
   | f :: fs => { f with buf := f.buf ++ bytes } :: fs
 
-/-- C11.1 — `capture` -/
-theorem capture_exact (c : Cons) (op : Cons → Prog Cons) (hop : ∀ c, Uses Op.notCap (op c))
+/-- a program that only moves forward and leaves, in the innermost open capture frame, exactly the
+    octets it moved over (capture-free programs: `run_consumed`; captures themselves: `tracks_capture`;
+    sequencing: `tracks_bind`) -/
+def Tracks (p : Prog α) : Prop :=
+  ∀ (g : G) (a : α) (g' : G), runG p g = .ok (a, g') → ∃ k, Consumed g g' k
+
+theorem tracks_of_uses (p : Prog α) (hp : Uses Op.notCap p) : Tracks p := run_consumed p hp
+
+theorem tracks_pure (a : α) : Tracks (pure a : Prog α) := by
+  intro g a' g' h
+  simp [runG_pure] at h
+  rw [← h.2]; exact ⟨0, Consumed.refl g⟩
+
+theorem tracks_bind (p : Prog α) (f : α → Prog β) (hp : Tracks p) (hf : ∀ a, Tracks (f a)) : Tracks (p >>= f) := by
+  intro g b g' h
+  simp only [runG_bind] at h
+  cases hr : runG p g with
+  | error e => simp [hr] at h
+  | ok r =>
+    obtain ⟨a, g1⟩ := r
+    simp only [hr] at h
+    obtain ⟨k1, c1⟩ := hp g a g1 hr
+    obtain ⟨k2, c2⟩ := hf a g1 b g' h
+    exact ⟨k1 + k2, c1.trans c2⟩
+
+/-- C11.1 — `capture`, for every closure that tracks (in particular: closures that capture again) -/
+theorem capture_exact_tracks (c : Cons) (op : Cons → Prog Cons) (hop : ∀ c, Tracks (op c))
     (g : G) (bytes : Bytes) (c' : Cons) (g' : G)
     (h : runG (capture c op) g = .ok ((bytes, c'), g')) :
     ∃ k, k ≤ g.data.length ∧
@@ -52,7 +77,7 @@ theorem capture_exact (c : Cons) (op : Cons → Prog Cons) (hop : ∀ c, Uses Op
   | ok r =>
     obtain ⟨c1, g1⟩ := r
     simp only [ho] at h
-    obtain ⟨k, hk, hd, hf⟩ := run_consumed (op c) (hop c) _ c1 g1 ho
+    obtain ⟨k, hk, hd, hf⟩ := hop c _ c1 g1 ho
     simp only at hk hd hf
     -- capEnd
     have hlen : (g.data.take k).length = k := by simp [List.length_take]; omega
@@ -94,6 +119,30 @@ theorem capture_exact (c : Cons) (op : Cons → Prog Cons) (hop : ∀ c, Uses Op
         · simp [hs]
         · simp only [hs, if_false]; rw [List.take_take]; congr 1; omega
 
+/-- C11.1 — `capture` with a capture-free closure -/
+theorem capture_exact (c : Cons) (op : Cons → Prog Cons) (hop : ∀ c, Uses Op.notCap (op c))
+    (g : G) (bytes : Bytes) (c' : Cons) (g' : G)
+    (h : runG (capture c op) g = .ok ((bytes, c'), g')) :
+    ∃ k, k ≤ g.data.length ∧
+      bytes = g.data.take (k - (if c'.state = c.state then 0 else c'.eoc)) ∧
+      g'.data = g.data.drop k ∧
+      g'.limit = g.limit.map (· - k) ∧
+      g'.frames = parentFrames g.frames (g.data.take k) ∧
+      c'.mode = c.mode :=
+  capture_exact_tracks c op (fun c => tracks_of_uses _ (hop c)) g bytes c' g' h
+
+/-- a capture tracks: seen from outside it is one forward move over what its closure moved over
+    (so captures nest to any depth: `capture_exact_tracks` applies to closures built with
+    `tracks_bind` from capture-free parts and further captures) -/
+theorem tracks_capture (c : Cons) (op : Cons → Prog Cons) (hop : ∀ c, Tracks (op c)) :
+    Tracks (capture c op) := by
+  intro g a g' h
+  obtain ⟨bytes, c'⟩ := a
+  obtain ⟨k, h1, _, h3, _, h5, _⟩ := capture_exact_tracks c op hop g bytes c' g' h
+  refine ⟨k, h1, h3, ?_⟩
+  rw [h5]
+  cases g.frames <;> rfl
+
 /-- C11.1 — `capture_one` -/
 theorem capture_one_exact (c : Cons) (fuel : Nat) (g : G) (bytes : Bytes) (c' : Cons) (g' : G)
     (h : runG (captureOne c fuel) g = .ok ((bytes, c'), g')) :
@@ -121,6 +170,49 @@ theorem capture_all_exact (c : Cons) (fuel : Nat) (g : G) (bytes : Bytes) (c' : 
 theorem eoc_not_captured :
     runG (captureAll ⟨.indefinite, .ber, 0⟩ 8) { data := [0x05, 0x00, 0x00, 0x00], limit := none } =
       .ok (([0x05, 0x00], ⟨.done, .ber, 2⟩), { data := [], limit := none }) := by
+  rfl
+
+/-! ### captures inside a capture -/
+
+theorem tracks_captureOne (c : Cons) (fuel : Nat) : Tracks (captureOne c fuel) :=
+  tracks_capture c _ (fun c => tracks_of_uses _ (by
+    apply uses_of_nocap
+    have := nocap_mandatory _ (nocap_skipOne c fuel)
+    nocap))
+
+theorem tracks_captureAll (c : Cons) (fuel : Nat) : Tracks (captureAll c fuel) :=
+  tracks_capture c _ (fun c => tracks_of_uses _ (uses_of_nocap (nocap_skipAll fuel c)))
+
+/-- a closure that captures two values one after the other, each with its own `capture_one` -/
+def twoCaptures (fuel : Nat) (c : Cons) : Prog Cons := do
+  let (_, c1) ← captureOne c fuel
+  let (_, c2) ← captureOne c1 fuel
+  pure c2
+
+theorem tracks_twoCaptures (fuel : Nat) (c : Cons) : Tracks (twoCaptures fuel c) := by
+  unfold twoCaptures
+  refine tracks_bind _ _ (tracks_captureOne c fuel) (fun r => ?_)
+  obtain ⟨_, c1⟩ := r
+  refine tracks_bind _ _ (tracks_captureOne c1 fuel) (fun r2 => ?_)
+  obtain ⟨_, c2⟩ := r2
+  exact tracks_pure c2
+
+/-- **C11.1 for nested captures**: a capture whose closure captures again returns exactly the
+    octets the closure advanced over (minus the enclosing end-of-contents marker), whatever capture
+    frames are open around it -/
+theorem nested_capture_exact (c : Cons) (fuel : Nat) (g : G) (bytes : Bytes) (c' : Cons) (g' : G)
+    (h : runG (capture c (twoCaptures fuel)) g = .ok ((bytes, c'), g')) :
+    ∃ k, k ≤ g.data.length ∧ bytes = g.data.take (k - (if c'.state = c.state then 0 else c'.eoc)) ∧
+      g'.data = g.data.drop k ∧ g'.limit = g.limit.map (· - k) ∧
+      g'.frames = parentFrames g.frames (g.data.take k) := by
+  obtain ⟨k, h1, h2, h3, h4, h5, _⟩ := capture_exact_tracks c _ (tracks_twoCaptures fuel) g bytes c' g' h
+  exact ⟨k, h1, h2, h3, h4, h5⟩
+
+/-- non-vacuity, by kernel evaluation: NULL and BOOLEAN captured one by one inside a capture, with
+    a third value left over -/
+theorem nested_example :
+    runG (capture ⟨.unbounded, .der, 0⟩ (twoCaptures 8)) { data := [0x05, 0x00, 0x01, 0x01, 0xff, 0x02, 0x01, 0x07], limit := none } =
+      .ok (([0x05, 0x00, 0x01, 0x01, 0xff], ⟨.unbounded, .der, 0⟩), { data := [0x02, 0x01, 0x07], limit := none }) := by
   rfl
 
 end Bcder.Props.C11
